@@ -15,3 +15,4 @@ pub mod report;
 pub mod rng;
 pub mod sched;
 pub mod sink;
+pub mod tfbsim;
